@@ -41,7 +41,7 @@ CHECKS = {
  "C18": ("exploration", "model-based property testing: generated cursor scripts vs sorted-vector + gap-index model",
          "tableops", "Generated cursor scripts (seek with every bound kind, peek/next/prev, inserts in both directions with fitting/unordered/equal keys, long buffered runs, removals, close/drop, commit/reopen, read-only cursors) compared step by step with a sorted vector and a gap index, and by full scans after every close.",
          "Two key families (u64, &str) with byte values.", "DESIGN.md 4/C18"),
- "C19": ("translation_validation", "differential testing against redb 3.0.0 (cargo cache) over generated histories in both directions, incl. crash images; oracle = reference model read through the other version",
+ "C19": ("exploration", "differential testing against redb 3.0.0 (cargo cache) over generated histories in both directions, incl. crash images; oracle = reference model read through the other version",
          "compat", "Generated histories written by one version and read (and, old->new, extended) by the other over one shared buffer, default geometry; identical tables, contents, persistent savepoints, integrity verdicts; two known findings listed.",
          "Only one old release (3.0.0) is available offline; page size 4096 / default regions only.", "DESIGN.md 4/C19"),
  "C01": ("fault_enumeration", "crash-state enumeration over recorded histories: proptest-generated histories on a recording backend, enumerated/sampled subsets and tears of unsynced writes at every storage operation, nested crashes in recovery; oracle = reference model's commit points",
